@@ -300,6 +300,15 @@ impl QuadVal {
             QuadVal::Rs512(x) => Box::new(x.into_iter()),
         }
     }
+    /// `let mut d = donor.clone(); d.clone_from(self); d`
+    pub fn clone_from_into(&self, donor: &QuadVal) -> Option<QuadVal> {
+        match (self, donor) {
+            (QuadVal::Qv(x), QuadVal::Qv(d)) => { let mut d = d.clone(); d.clone_from(x); Some(QuadVal::Qv(d)) }
+            (QuadVal::Rs256(x), QuadVal::Rs256(d)) => { let mut d = d.clone(); d.clone_from(x); Some(QuadVal::Rs256(d)) }
+            (QuadVal::Rs512(x), QuadVal::Rs512(d)) => { let mut d = d.clone(); d.clone_from(x); Some(QuadVal::Rs512(d)) }
+            _ => None,
+        }
+    }
     pub fn check_iter_adapters(&self, m: &QuadModel, seed: u64, ctx: &mut Ctx) -> CheckResult {
         use crate::iteradapt::check_adapters as ca;
         let who = self.kind().name();
